@@ -726,11 +726,18 @@ class Gen:
                           {"e": "bin", "op": "add", "l": {"e": "bin", "op": "add", "l": var("r"),
                                                           "r": {"e": "bin", "op": "mul", "l": cnt("a"), "r": self.int_lit(I32, 10)}},
                            "r": cnt("b")})}
-        return [f1, f2]
+        # va_two :: (k: i32, a: ...i32, b: ...bool) -> i32 { k + a.len * 10 + b.len }   (two in a row)
+        f3 = {"name": "va_two", "params": [{"n": "k", "ty": I32}, {"n": "a", "ty": ("vararg", I32)}, {"n": "b", "ty": ("vararg", BOOL)}], "ret": I32,
+              "body": blk([], {"e": "bin", "op": "add", "l": {"e": "bin", "op": "add", "l": var("k"),
+                                                              "r": {"e": "bin", "op": "mul", "l": cnt("a"), "r": self.int_lit(I32, 10)}},
+                               "r": cnt("b")})}
+        return [f1, f2, f3]
 
     def vararg_call(self, d):
         r = self.r
         pack = lambda t, n: {"e": "arr", "elem": t, "es": [self.expr(t, d + 1) for _ in range(n)], "varargs": True}
+        if r.random() < 0.25:
+            return {"e": "call", "f": "va_two", "args": [self.expr(I32, d + 1), pack(I32, r.choice([0, 0, 1, 2])), pack(BOOL, r.choice([0, 0, 1, 2]))]}
         if r.random() < 0.6:
             return {"e": "call", "f": "va_sum", "args": [self.expr(I32, d + 1), pack(I32, r.choice([0, 1, 2, 3]))]}
         return {"e": "call", "f": "va_mid", "args": [pack(I32, r.choice([0, 0, 1, 3])), self.expr(BOOL, d + 1), pack(U8, r.choice([0, 1, 2]))]}
